@@ -350,5 +350,5 @@ func gen(t *rapid.T) Case {
 }
 
 func TestDeterminism(t *testing.T) {
-	vfrun.Run(t, vfrun.Prop[Case]{Property: "C18", Name: "TestDeterminism", Gen: gen, Check: check}, vfrun.N(32, 480))
+	vfrun.Run(t, vfrun.Prop[Case]{Property: "C18", Name: "TestDeterminism", Gen: gen, Check: check}, vfrun.N(48, 600))
 }
